@@ -52,7 +52,7 @@ def generate(seed, idx, tier):
   s, p, S = _grid(rng, tier, idx)
   cfg = ds_gen.gen_config(rng, emph={
       'eps': [(1e-1, 2), (1e-2, 2), (1e-3, 3), (1e-6, 2)],
-      'thr': [(0.1, 8), (1e30, 1)]})
+      'thr': [(0.1, 5), (0.01, 1), (0.7, 1), (0.2, 1), (1e30, 1)]})
   cfg['statistics_compute_steps'] = s
   cfg['preconditioning_compute_steps'] = p
   cfg['start_preconditioning_step'] = S
